@@ -199,3 +199,69 @@ Theorem C16_comp_copy_sequences : forall c c' : comp, comp_built c -> comp_copy 
                  dur_rel (s_rel s') = dur_rel (s_rel s).
 Proof. exact Comp_proofs.C16_comp_copy_sequences. Qed.
 Print Assumptions C16_comp_copy_sequences.
+
+(* ================================================================ compound operations (Model/ScaleDown.v,
+   Proofs/C16_hops.v).  Vocabulary:
+     optl meta        [j] for meta = Some j, [] for None
+     names_h h        every object index named by the compound operation h (HOp o / HFail o e: names o; HSeq os: the
+                      names of all of os; HScaleDown i k meta then_: i, the meta object and the names of then_)
+     may_change_h h   likewise with may_change (for HScaleDown: i and the meta object, whose views are refreshed)
+     writes_h h       likewise with writes (for HScaleDown: i only -- the meta object is only read)
+     leaves_h j hs := no compound operation of hs has j in may_change_h;  no_write_h j hs := none has j in writes_h *)
+From Model Require Import ScaleDown.
+From Proofs Require Import C16_hops.
+
+(* frame for one compound operation (any constructor of `hop`, including one that stops at its first error): every
+   existing object stays at its index; it is literally unchanged unless the compound may change it, and at most
+   regenerated unless the compound writes it.  In particular the meta object j <> i of scale(1/k, meta) is at most
+   regenerated *)
+Theorem C16_hframe : forall st h j s, nth_error st j = Some s ->
+  exists s', nth_error (fst (hstep st h)) j = Some s' /\
+             (memn j (may_change_h h) = false -> s' = s) /\
+             (memn j (writes_h h) = false -> regen s s').
+Proof. exact C16_hops.C16_hframe. Qed.
+Print Assumptions C16_hframe.
+
+(* an object the compound operation does not even name is literally unchanged *)
+Theorem C16_hframe_names : forall st h j s, nth_error st j = Some s -> memn j (names_h h) = false ->
+  nth_error (fst (hstep st h)) j = Some s.
+Proof. exact C16_hops.C16_hframe_names. Qed.
+Print Assumptions C16_hframe_names.
+
+(* the store only grows *)
+Theorem C16_hlength : forall st h, (length st <= length (fst (hstep st h)))%nat.
+Proof. exact C16_hops.C16_hlength. Qed.
+Print Assumptions C16_hlength.
+
+(* scale(1/k, meta) on object i by itself: objects other than i and the meta object are literally unchanged; every
+   object other than i -- in particular the meta object -- is at most regenerated and keeps its events; when the call
+   fails (returns an error) this holds for object i too: only views were refreshed *)
+Theorem C16_scale_down_frame : forall st i k meta j s, nth_error st j = Some s ->
+  exists s', nth_error (fst (store_scale_down st i k meta)) j = Some s' /\
+             (j <> i -> meta <> Some j -> s' = s) /\
+             (j <> i -> regen s s' /\ same_events s s') /\
+             (forall e, snd (store_scale_down st i k meta) = OErr e -> regen s s' /\ same_events s s').
+Proof. exact C16_hops.C16_scale_down_frame. Qed.
+Print Assumptions C16_scale_down_frame.
+
+(* ... and it creates no object *)
+Theorem C16_scale_down_length : forall st i k meta, length (fst (store_scale_down st i k meta)) = length st.
+Proof. exact C16_hops.C16_scale_down_length. Qed.
+Print Assumptions C16_scale_down_length.
+
+(* histories of compound operations: an object no compound may change is literally unchanged afterwards; an object
+   that is only read (e.g. used as meta sequence of scale) is at most regenerated and keeps its events; objects are
+   only ever appended *)
+Theorem C16_run_h_frame : forall hs st j s, nth_error st j = Some s -> leaves_h j hs = true ->
+  nth_error (fst (run_h st hs)) j = Some s.
+Proof. exact C16_hops.C16_run_h_frame. Qed.
+Print Assumptions C16_run_h_frame.
+
+Theorem C16_run_h_reads : forall hs st j s, nth_error st j = Some s -> no_write_h j hs = true ->
+  exists s', nth_error (fst (run_h st hs)) j = Some s' /\ regen s s' /\ same_events s s'.
+Proof. exact C16_hops.C16_run_h_reads. Qed.
+Print Assumptions C16_run_h_reads.
+
+Theorem C16_run_h_length : forall hs st, (length st <= length (fst (run_h st hs)))%nat.
+Proof. exact C16_hops.C16_run_h_length. Qed.
+Print Assumptions C16_run_h_length.
